@@ -35,10 +35,24 @@ def precreate_outputs(writer, d):
             fh.write(sigfile.encode_header(sigfile.std_items(nchans=NCH, nbits=8, source_name="STALE")) + bytes(range(256)) * 8)
 
 
+BIG_WRITERS = ("extract_chans_big", "extract_bands_big")   # products above 1 MiB: size-dependent writer paths (pre-allocation etc.)
+
+
 def run_writer(writer, d, gulp, nbits=8, seed=0, preexisting=False):
     """Perform the write inside directory d. Returns list of output paths."""
     from sigpyproc.readers import FilReader
 
+    if writer in BIG_WRITERS:
+        rng = np.random.default_rng([seed, 77])
+        nb = 270000
+        Xb = rng.integers(0, 200, size=(nb, 4)).astype(np.uint8)
+        pb = os.path.join(d, "in.fil")
+        sigfile.write_fil(pb, Xb, 8, fch1=1500.0, foff=-10.0, tsamp=1e-3)
+        filb = FilReader(pb)
+        kwb = {"gulp": 65536, "quiet": True, "description": "v"}
+        if writer == "extract_chans_big":
+            return list(filb.extract_chans([0, 3], os.path.join(d, "oc"), **kwb))
+        return list(filb.extract_bands(0, 4, 2, os.path.join(d, "ob"), **kwb))
     p, X = make_input(d, nbits, seed)
     if preexisting:
         precreate_outputs(writer, d)
